@@ -763,7 +763,7 @@ fn walk_declared<P: pilota::thrift::TInputProtocol>(
 ) -> Result<(), pilota::thrift::ThriftException> {
     use crate::corpus_def::{Kind, Ty};
     use pilota::thrift::TType;
-    if depth > 90 {
+    if depth > 600 {
         return Err(pilota::thrift::new_protocol_exception(pilota::thrift::ProtocolExceptionKind::Unknown, "harness:walk-depth"));
     }
     match t {
